@@ -53,8 +53,9 @@ class BatcherRoles:
             call = u.scopes.get(f'{c.qualname}.__call__')
             has_q = any(isinstance(n, ast.Assign) and isinstance(n.value, ast.Call) and (r.path(n.value.func) or '').startswith('asyncio.')
                         and (r.path(n.value.func) or '').endswith('Queue') for n in own_nodes(init.node))
-            if has_q and call is not None and call.is_async and any(
-                    isinstance(x, ast.Attribute) and x.attr == 'create_future' for x in ast.walk(call.node)):
+            makes_futs = any(isinstance(x, ast.Attribute) and x.attr == 'create_future'
+                             for m_ in u.functions() if m_.enclosing_class() is c for x in ast.walk(m_.node))   # (in __call__ or a helper of it)
+            if has_q and call is not None and call.is_async and makes_futs:
                 self.cls = c
                 self.init = init
                 self.u = u
@@ -1636,7 +1637,31 @@ def c15(ctx: Ctx) -> None:
                           construct=construct_key(d.qualname, 'option form returns nothing'))
         for rn in rets:
             v = rn.ast.value
-            if not (isinstance(v, ast.Call) and (g.res.path(v.func) or '') == 'functools.partial'):
+            # a shared re-binding helper `def _with_options(deco, **options): return partial(deco, **options)` is the partial
+            # it returns; one that passes on anything but the options as given (a filtered / rebuilt mapping) alters them
+            if isinstance(v, ast.Call) and isinstance(v.func, ast.Name) and (g.res.path(v.func) or '') != 'functools.partial':
+                hs_ = [c_ for c_ in d.unit.module_scope.children if c_.kind == 'function' and c_.name == v.func.id]
+                h_ = hs_[0] if len(hs_) == 1 else None
+                if h_ is not None and not h_.is_async and not h_.is_generator and not h_.decorators:
+                    a_ = h_.node.args
+                    body_ = [st_ for st_ in h_.node.body if not (isinstance(st_, ast.Expr) and isinstance(st_.value, ast.Constant))]
+                    r_ = body_[0].value if len(body_) == 1 and isinstance(body_[0], ast.Return) else None
+                    if len(a_.args) == 1 and a_.kwarg is not None and not a_.vararg and not a_.kwonlyargs and isinstance(r_, ast.Call) \
+                            and (Resolver(h_).path(r_.func) or '') == 'functools.partial' and len(r_.args) == 1 \
+                            and isinstance(r_.args[0], ast.Name) and r_.args[0].id == a_.args[0].arg and len(r_.keywords) == 1 and r_.keywords[0].arg is None:
+                        passed_ = r_.keywords[0].value
+                        if isinstance(passed_, ast.Name) and passed_.id == a_.kwarg.arg:
+                            v2_ = ast.Call(func=r_.func, args=list(v.args), keywords=list(v.keywords))
+                            ast.copy_location(v2_, v)
+                            v2_._via_helper = h_   # type: ignore[attr-defined]
+                            v = v2_
+                        else:
+                            ctx.violation('C15-R1', f'{d.name}: {h_.name} re-binds {norm(passed_)[:80]}', f'{FILE}:{r_.lineno}',
+                                          f'the re-binding helper does not pass the options on as given: what @{d.name}(...) was called with is '
+                                          'filtered or rebuilt on the way (a falsy value such as 0 is dropped and the default applies), the direct form keeps it',
+                                          construct=construct_key(d.qualname, 'options altered by the re-binding helper'))
+                            continue
+            if not (isinstance(v, ast.Call) and ((g.res.path(v.func) or '') == 'functools.partial' or getattr(v, '_via_helper', None) is not None)):
                 ctx.undecided('C15-R1', f'{d.name}: {norm(v)[:80]}', g.loc(rn), 'option form does not return functools.partial')
                 continue
             target_ok = v.args and isinstance(v.args[0], ast.Name) and v.args[0].id == d.name and len(v.args) == 1
